@@ -1240,8 +1240,8 @@ Proof.
   destruct (read_path s) as [[[t0 ne0] r1]|e]; [|exact H1].
   cbn [res_post] in H1. destruct H1 as [Hn1 Ha1].
   destruct (ev_empty t0 ne0); [apply okerr_simple; exact I|].
-  destruct t0 as [|x0 t0]; [apply okerr_simple; exact I|].
-  destruct (chk seen (canon (x0 :: t0))) as [e|] eqn:Hc; [exact (Hchk _ _ _ Hc)|].
+  destruct (is_empty t0); [apply okerr_simple; exact I|]. cbv zeta.
+  destruct (chk seen (canon t0)) as [e|] eqn:Hc; [exact (Hchk _ _ _ Hc)|].
   pose proof (read_path_spec r1 Hn1) as H2.
   destruct (read_path r1) as [[[t1 ne1] r2]|e]; [|exact H2].
   cbn [res_post] in H2. destruct H2 as [Hn2 Ha2].
@@ -1306,7 +1306,7 @@ Proof.
       then match parse_let r12 with
            | Ok (key, (v, _), r13) =>
              if negb (bytes_eqb key s_restat) then Err E_binding_not_restat
-             else Ok (negb match v with [] => true | _ :: _ => false end, r13)
+             else Ok (negb (is_empty v), r13)
            | Err e => Err e
            end
       else Ok (false, r12))
@@ -1461,21 +1461,395 @@ Theorem C11_truncation_after_pipe_proof : forall chk pre,
   (exists e, parse_gen chk (pre ++ [124; 32]) = Err e).
 Proof.
   intros chk pre Hchk Hpre.
-  assert (H : forall tail, ~ In 0 tail -> (forall c', tail <> c' ++ [10]) -> tail <> [] ->
-                           exists e, parse_gen chk (pre ++ tail) = Err e).
-  { intros tail Ht Hnl Hne. destruct (parse_gen chk (pre ++ tail)) as [l|e] eqn:Hp; [|eauto]. exfalso.
+  assert (H : forall t' x, x <> 10 -> ~ In 0 (t' ++ [x]) ->
+                           exists e, parse_gen chk (pre ++ t' ++ [x]) = Err e).
+  { intros t' x Hx Ht. destruct (parse_gen chk (pre ++ t' ++ [x])) as [l|e] eqn:Hp; [|eauto]. exfalso.
     apply C11_accepted_ends_with_newline_proof in Hp; [|exact Hchk|].
-    - destruct Hp as [c' E].
-      destruct (exists_last Hne) as [t' [x Et]]. subst tail. rewrite app_assoc in E.
-      apply app_inj_tail in E. destruct E as [_ ->]. exact (Hnl t' eq_refl).
+    - destruct Hp as [c' E]. rewrite app_assoc in E.
+      apply app_inj_tail in E. destruct E as [_ E]. exact (Hx E).
     - intros Hin. apply in_app_or in Hin. tauto. }
-  split; apply H.
-  - intros [H0|[]]. discriminate.
-  - intros c' E. destruct c' as [|y [|z c']]; cbn [app] in E; try discriminate; destruct c'; discriminate.
-  - discriminate.
-  - intros [H0|[H0|[]]]; discriminate.
-  - intros c' E. destruct c' as [|y [|z c']]; cbn [app] in E; try discriminate.
-    + injection E as E1 E2. discriminate.
-    + destruct c'; discriminate.
-  - discriminate.
+  split.
+  - apply (H [] 124); [discriminate|]. intros [H0|[]]. discriminate.
+  - apply (H [124] 32); [discriminate|]. intros [H0|[H0|[]]]; discriminate.
+Qed.
+
+(* ========================================================================================== *)
+(** * Part 3: printing then parsing *)
+
+Lemma name_char_ok_spec c : name_char_ok c = true -> c <> 0 /\ c <> 10 /\ c <> 13 /\ c <> 124.
+Proof.
+  unfold name_char_ok. intros H. apply negb_true_iff in H.
+  apply orb_false_iff in H. destruct H as [H H4]. apply orb_false_iff in H. destruct H as [H H3].
+  apply orb_false_iff in H. destruct H as [H1 H2].
+  repeat split; apply N.eqb_neq; assumption.
+Qed.
+
+Lemma wf_name_spec p : wf_name p = true -> p <> [] /\ forallb name_char_ok p = true /\ canon p = p.
+Proof.
+  unfold wf_name. destruct p as [|c p]; [discriminate|]. intros H. apply andb_true_iff in H.
+  destruct H as [H1 H2]. split; [discriminate|]. split; [exact H1|]. now apply bytes_eqb_eq.
+Qed.
+
+Lemma ckind_text c :
+  c <> 36 -> c <> 32 -> c <> 58 -> c <> 124 -> c <> 13 -> c <> 10 -> c <> 0 -> ckind_of c = K_text.
+Proof.
+  intros H1 H2 H3 H4 H5 H6 H7. unfold ckind_of.
+  apply N.eqb_neq in H1, H2, H3, H4, H5, H6, H7. now rewrite H1, H2, H3, H4, H5, H6, H7.
+Qed.
+
+Definition delim (d : byte) : Prop := d = 32 \/ d = 58 \/ d = 10.
+
+(* reading an escaped name up to a delimiter *)
+Lemma read_eval_esc : forall p acc ne d rest,
+  forallb name_char_ok p = true -> delim d ->
+  read_eval true (esc_path p ++ d :: rest) EM_normal acc ne =
+  Ok (rev acc ++ p, ne || negb (is_nil p), d :: rest).
+Proof.
+  induction p as [|c p IH]; intros acc ne d rest Hok Hd.
+  - cbn [esc_path flat_map app is_nil negb]. rewrite orb_false_r, app_nil_r.
+    rewrite read_eval_unfold. unfold ev_normal.
+    destruct Hd as [-> | [-> | ->]]; reflexivity.
+  - cbn [forallb] in Hok. apply andb_true_iff in Hok. destruct Hok as [Hc Hok].
+    destruct (name_char_ok_spec c Hc) as [H0 [H10 [H13 H124]]].
+    cbn [esc_path flat_map is_nil negb]. fold (esc_path p). rewrite orb_true_r.
+    unfold esc_char.
+    destruct (N.eqb_spec c 36) as [->|H36]; cbn [orb].
+    { cbn [app]. rewrite read_eval_unfold. unfold ev_normal. cbn [ckind_of N.eqb Pos.eqb].
+      rewrite IH by assumption. cbn [rev]. rewrite <- app_assoc. cbn [app orb]. reflexivity. }
+    destruct (N.eqb_spec c 32) as [->|H32]; cbn [orb].
+    { cbn [app]. rewrite read_eval_unfold. unfold ev_normal. cbn [ckind_of N.eqb Pos.eqb].
+      rewrite IH by assumption. cbn [rev]. rewrite <- app_assoc. cbn [app orb]. reflexivity. }
+    destruct (N.eqb_spec c 58) as [->|H58]; cbn [orb].
+    { cbn [app]. rewrite read_eval_unfold. unfold ev_normal. cbn [ckind_of N.eqb Pos.eqb].
+      rewrite IH by assumption. cbn [rev]. rewrite <- app_assoc. cbn [app orb]. reflexivity. }
+    cbn [app]. rewrite read_eval_unfold. unfold ev_normal.
+    rewrite (ckind_text c) by assumption.
+    rewrite IH by assumption. cbn [rev]. rewrite <- app_assoc. cbn [app orb]. reflexivity.
+Qed.
+
+Lemma eat_ws_stop c s : c <> 32 -> c <> 36 -> eat_ws (c :: s) = Ok (c :: s).
+Proof.
+  intros H1 H2. cbn [eat_ws]. apply N.eqb_neq in H1, H2. now rewrite H1, H2.
+Qed.
+
+(* an escaped non-empty name does not start with blank or a line continuation *)
+Lemma eat_ws_esc p X : p <> [] -> forallb name_char_ok p = true ->
+  eat_ws (esc_path p ++ X) = Ok (esc_path p ++ X).
+Proof.
+  destruct p as [|c p]; [congruence|]. intros _ Hok.
+  cbn [forallb] in Hok. apply andb_true_iff in Hok. destruct Hok as [Hc _].
+  destruct (name_char_ok_spec c Hc) as [H0 [H10 [H13 H124]]].
+  cbn [esc_path flat_map]. unfold esc_char.
+  destruct (N.eqb_spec c 36) as [->|H36]; cbn [orb]; [reflexivity|].
+  destruct (N.eqb_spec c 32) as [->|H32]; cbn [orb]; [reflexivity|].
+  destruct (N.eqb_spec c 58) as [->|H58]; cbn [orb]; [reflexivity|].
+  cbn [app]. now apply eat_ws_stop.
+Qed.
+
+Lemma read_path_esc p d rest : wf_name p = true -> delim d ->
+  read_path (esc_path p ++ d :: rest) =
+  match eat_ws (d :: rest) with Ok r => Ok (p, true, r) | Err e => Err e end.
+Proof.
+  intros Hwf Hd. destruct (wf_name_spec p Hwf) as [Hne [Hok _]].
+  unfold read_path. rewrite read_eval_esc by assumption. cbn [rev app orb].
+  destruct p; [congruence|]. reflexivity.
+Qed.
+
+Lemma read_path_at_colon rest : read_path (58 :: rest) = Ok ([], false, 58 :: rest).
+Proof. reflexivity. Qed.
+Lemma read_path_at_nl rest : read_path (10 :: rest) = Ok ([], false, 10 :: rest).
+Proof. reflexivity. Qed.
+Lemma read_path_at_pipe rest : read_path (124 :: rest) = Ok ([], false, 124 :: rest).
+Proof. reflexivity. Qed.
+
+(* ---------- tokens of the printed text (closed computations with a symbolic tail) ---------- *)
+Lemma read_token_pipe_sp x : read_token (124 :: 32 :: x) =
+  match eat_ws x with Ok r => Ok (T_PIPE, 124 :: 32 :: x, r) | Err e => Err e end.
+Proof. reflexivity. Qed.
+Lemma read_token_colon_sp x : read_token (58 :: 32 :: x) =
+  match eat_ws x with Ok r => Ok (T_COLON, 58 :: 32 :: x, r) | Err e => Err e end.
+Proof. reflexivity. Qed.
+Lemma read_token_nl x : read_token (10 :: x) = Ok (T_NEWLINE, 10 :: x, x).
+Proof. reflexivity. Qed.
+Lemma read_token_nul x : read_token (0 :: x) = Ok (T_TEOF, 0 :: x, x).
+Proof. reflexivity. Qed.
+Lemma read_token_build x : read_token (s_build ++ 32 :: x) =
+  match eat_ws x with Ok r => Ok (T_BUILD, s_build ++ 32 :: x, r) | Err e => Err e end.
+Proof. reflexivity. Qed.
+Lemma read_token_indent_restat x : read_token (32 :: 32 :: s_restat ++ x) =
+  Ok (T_INDENT, 32 :: 32 :: s_restat ++ x, s_restat ++ x).
+Proof. reflexivity. Qed.
+
+Definition plist_items (l : list bytes) : bytes := flat_map (fun p => 32 :: esc_path p) l.
+
+Lemma print_list_items l : print_list l = match l with [] => [] | _ => 32 :: 124 :: plist_items l end.
+Proof. destruct l; reflexivity. Qed.
+
+Lemma plist_items_cons p l X :
+  plist_items (p :: l) ++ X = 32 :: esc_path p ++ plist_items l ++ X.
+Proof. unfold plist_items. cbn [flat_map app]. now rewrite <- app_assoc. Qed.
+
+Lemma forallb_wf_cons p l : forallb wf_name (p :: l) = true -> wf_name p = true /\ forallb wf_name l = true.
+Proof. cbn [forallb]. intros H. now apply andb_true_iff in H. Qed.
+
+Lemma eat_ws_items l d Z : forallb wf_name l = true -> d = 58 \/ d = 10 ->
+  eat_ws (plist_items l ++ d :: Z) =
+  Ok (match l with [] => d :: Z | p :: l' => esc_path p ++ plist_items l' ++ d :: Z end).
+Proof.
+  intros Hwf Hd. destruct l as [|p l'].
+  - cbn [plist_items flat_map app]. apply eat_ws_stop; destruct Hd as [-> | ->]; discriminate.
+  - apply forallb_wf_cons in Hwf. destruct Hwf as [Hp _].
+    destruct (wf_name_spec p Hp) as [Hne [Hok _]].
+    rewrite plist_items_cons. cbn [eat_ws N.eqb Pos.eqb].
+    now apply eat_ws_esc.
+Qed.
+
+Lemma delim_items_head l d Z : d = 58 \/ d = 10 ->
+  exists d' rest, plist_items l ++ d :: Z = d' :: rest /\ delim d'.
+Proof.
+  intros Hd. destruct l as [|p l'].
+  - exists d, Z. split; [reflexivity|]. destruct Hd as [-> | ->]; [right; now left|right; now right].
+  - rewrite plist_items_cons. eexists _, _. split; [reflexivity|now left].
+Qed.
+
+Lemma read_paths_list : forall l fuel d Z,
+  forallb wf_name l = true -> d = 58 \/ d = 10 -> (length l < fuel)%nat ->
+  read_paths fuel (match l with [] => d :: Z | p :: l' => esc_path p ++ plist_items l' ++ d :: Z end)
+  = Ok (l, d :: Z).
+Proof.
+  induction l as [|p l IH]; intros fuel d Z Hwf Hd Hl; (destruct fuel as [|f]; [cbn [length] in Hl; lia|]);
+    cbn [read_paths].
+  - destruct Hd as [-> | ->]; reflexivity.
+  - apply forallb_wf_cons in Hwf. destruct Hwf as [Hp Hwf].
+    destruct (delim_items_head l d Z Hd) as [d' [rest [E Hd']]]. rewrite E.
+    rewrite (read_path_esc p d' rest Hp Hd'). rewrite <- E.
+    rewrite (eat_ws_items l d Z Hwf Hd). unfold ev_empty. cbn [negb].
+    rewrite IH; [reflexivity|assumption|assumption|cbn [length] in Hl; lia].
+Qed.
+
+(* the "| a b c" section up to its terminator [d] (':' for outputs, newline for inputs) *)
+Lemma list_section l d Z fuel :
+  forallb wf_name l = true -> d = 58 \/ d = 10 -> (length l < fuel)%nat ->
+  peek_token T_PIPE (d :: Z) = Ok (false, d :: Z) ->
+  exists r2, eat_ws (print_list l ++ d :: Z) = Ok r2 /\
+             read_path r2 = Ok ([], false, r2) /\
+             exists b r3, peek_token T_PIPE r2 = Ok (b, r3) /\
+                          (if b then read_paths fuel r3 else Ok ([], r3)) = Ok (l, d :: Z).
+Proof.
+  intros Hwf Hd Hl Hpeek. rewrite print_list_items. destruct l as [|p l'].
+  - cbn [app]. exists (d :: Z).
+    split; [apply eat_ws_stop; destruct Hd as [-> | ->]; discriminate|].
+    split; [destruct Hd as [-> | ->]; reflexivity|].
+    exists false, (d :: Z). split; [exact Hpeek|reflexivity].
+  - set (l := p :: l') in *.
+    exists (124 :: plist_items l ++ d :: Z).
+    split; [reflexivity|]. split; [reflexivity|].
+    exists true, (esc_path p ++ plist_items l' ++ d :: Z). split.
+    + unfold peek_token. subst l. rewrite plist_items_cons. rewrite read_token_pipe_sp.
+      apply forallb_wf_cons in Hwf. destruct Hwf as [Hp _].
+      destruct (wf_name_spec p Hp) as [Hne [Hok _]].
+      rewrite eat_ws_esc by assumption. reflexivity.
+    + apply (read_paths_list l fuel d Z Hwf Hd Hl).
+Qed.
+
+(* ---------- one printed statement ---------- *)
+(* the text after the escaped output name, followed by [NEXT] *)
+Definition stmt_tail (st : dd_stmt) (NEXT : bytes) : bytes :=
+  print_list (dd_imp_outs st) ++ 58 :: 32 :: s_dyndep ++ print_list (dd_imp_ins st) ++
+  10 :: (if dd_restat st then s_restat_line else []) ++ NEXT.
+
+Lemma print_stmt_shape st NEXT :
+  print_stmt st ++ NEXT = s_build ++ 32 :: esc_path (dd_out st) ++ stmt_tail st NEXT.
+Proof.
+  unfold print_stmt, stmt_tail. rewrite <- !app_assoc. cbn [app]. rewrite <- !app_assoc. cbn [app].
+  rewrite <- !app_assoc. reflexivity.
+Qed.
+
+Lemma delim_list_head l d Z : d = 58 \/ d = 10 ->
+  exists d' rest, print_list l ++ d :: Z = d' :: rest /\ delim d'.
+Proof.
+  intros Hd. destruct l as [|p l'].
+  - exists d, Z. split; [reflexivity|]. destruct Hd as [-> | ->]; [right; now left|right; now right].
+  - cbn [print_list app]. eexists _, _. split; [reflexivity|now left].
+Qed.
+
+Lemma read_ident_dyndep B d rest : B = d :: rest -> d = 32 \/ d = 10 ->
+  read_ident (s_dyndep ++ B) =
+  match eat_ws B with Ok r => Ok (Some (s_dyndep, r)) | Err e => Err e end.
+Proof. intros -> [-> | ->]; reflexivity. Qed.
+
+Lemma canon_paths_wf l : forallb wf_name l = true -> canon_paths l = Ok l.
+Proof.
+  induction l as [|p l IH]; intros Hwf; [reflexivity|].
+  apply forallb_wf_cons in Hwf. destruct Hwf as [Hp Hwf].
+  destruct (wf_name_spec p Hp) as [Hne [_ Hc]].
+  cbn [canon_paths]. destruct p; [congruence|]. rewrite IH by assumption. now rewrite Hc.
+Qed.
+
+Lemma wf_stmt_spec st : wf_stmt st = true ->
+  wf_name (dd_out st) = true /\ forallb wf_name (dd_imp_outs st) = true /\
+  forallb wf_name (dd_imp_ins st) = true.
+Proof.
+  unfold wf_stmt. intros H. apply andb_true_iff in H. destruct H as [H H3].
+  apply andb_true_iff in H. tauto.
+Qed.
+
+Lemma parse_edge_print fuel chk seen st NEXT :
+  wf_stmt st = true -> chk seen (dd_out st) = None ->
+  (length (dd_imp_outs st) < fuel)%nat -> (length (dd_imp_ins st) < fuel)%nat ->
+  peek_token T_INDENT NEXT = Ok (false, NEXT) ->
+  parse_edge fuel chk seen (esc_path (dd_out st) ++ stmt_tail st NEXT) = Ok (st, NEXT).
+Proof.
+  intros Hwf Hchk Hlo Hli Hnext.
+  destruct (wf_stmt_spec st Hwf) as [Hout [Houts Hins]].
+  destruct (wf_name_spec _ Hout) as [Hne [Hok Hcanon]].
+  set (TAIL := (if dd_restat st then s_restat_line else []) ++ NEXT).
+  set (B := print_list (dd_imp_ins st) ++ 10 :: TAIL).
+  set (A := print_list (dd_imp_outs st) ++ 58 :: 32 :: s_dyndep ++ B).
+  assert (EA : stmt_tail st NEXT = A) by reflexivity. rewrite EA.
+  (* the two list sections *)
+  destruct (list_section (dd_imp_outs st) 58 (32 :: s_dyndep ++ B) fuel Houts (or_introl eq_refl) Hlo eq_refl)
+    as [r2 [Hws1 [Hrp1 [b1 [r3 [Hpk1 Hrd1]]]]]].
+  destruct (list_section (dd_imp_ins st) 10 TAIL fuel Hins (or_intror eq_refl) Hli eq_refl)
+    as [q2 [Hws2 [Hrp2 [b2 [q3 [Hpk2 Hrd2]]]]]].
+  fold B in Hws2. fold A in Hws1.
+  unfold parse_edge.
+  (* 1: the output *)
+  destruct (delim_list_head (dd_imp_outs st) 58 (32 :: s_dyndep ++ B) (or_introl eq_refl)) as [d1 [rest1 [E1 Hd1]]].
+  fold A in E1. rewrite E1. rewrite (read_path_esc _ d1 rest1 Hout Hd1). rewrite <- E1. rewrite Hws1.
+  cbv beta iota. unfold ev_empty at 1. cbn [negb].
+  replace (is_empty (dd_out st)) with false by (destruct (dd_out st); [congruence|reflexivity]).
+  cbv zeta. rewrite Hcanon, Hchk.
+  (* 2: no explicit outputs; implicit outputs *)
+  rewrite Hrp1. cbv beta iota. unfold ev_empty at 1. cbn [negb].
+  rewrite Hpk1. cbv beta iota. rewrite Hrd1. cbv beta iota.
+  (* 3: ": dyndep" *)
+  replace (expect_token T_COLON (58 :: 32 :: s_dyndep ++ B)) with (Ok (s_dyndep ++ B)) by reflexivity.
+  cbv beta iota.
+  destruct (delim_list_head (dd_imp_ins st) 10 TAIL (or_intror eq_refl)) as [d2 [rest2 [E2 Hd2]]].
+  fold B in E2.
+  assert (Hd2' : d2 = 32 \/ d2 = 10).
+  { clear -E2. subst B. destruct (dd_imp_ins st); cbn [print_list app] in E2; injection E2 as <- _; auto. }
+  rewrite (read_ident_dyndep B d2 rest2 E2 Hd2'). rewrite Hws2. cbv beta iota.
+  rewrite bytes_eqb_refl. cbn [negb].
+  (* 4: no explicit inputs; implicit inputs; no order-only; newline *)
+  rewrite Hrp2. cbv beta iota. unfold ev_empty at 1. cbn [negb].
+  rewrite Hpk2. cbv beta iota. rewrite Hrd2. cbv beta iota.
+  replace (peek_token T_PIPE2 (10 :: TAIL)) with (Ok (false, 10 :: TAIL)) by reflexivity.
+  cbv beta iota.
+  replace (expect_token T_NEWLINE (10 :: TAIL)) with (Ok TAIL) by reflexivity.
+  cbv beta iota.
+  (* 5: the restat binding *)
+  rewrite (canon_paths_wf _ Hins), (canon_paths_wf _ Houts).
+  subst TAIL. destruct st as [out outs ins restat]. cbn [dd_restat dd_out dd_imp_outs dd_imp_ins] in *.
+  destruct restat.
+  - replace (peek_token T_INDENT (s_restat_line ++ NEXT))
+      with (Ok (true, s_restat ++ 32 :: 61 :: 32 :: 49 :: 10 :: NEXT)) by reflexivity.
+    cbv beta iota.
+    replace (parse_let (s_restat ++ 32 :: 61 :: 32 :: 49 :: 10 :: NEXT))
+      with (Ok (s_restat, ([49], true), NEXT)) by reflexivity.
+    cbv beta iota. rewrite bytes_eqb_refl. reflexivity.
+  - cbn [app]. rewrite Hnext. reflexivity.
+Qed.
+
+(* ---------- the whole file ---------- *)
+(* the checks against the State pass for every statement (trivial for [no_chk]) *)
+Fixpoint chk_passes (chk : list dd_stmt -> bytes -> option dd_err) (seen : list dd_stmt)
+         (stmts : list dd_stmt) : Prop :=
+  match stmts with
+  | [] => True
+  | st :: l => chk seen (dd_out st) = None /\ chk_passes chk (st :: seen) l
+  end.
+
+Lemma peek_indent_body l :
+  Forall (fun st => wf_stmt st = true) l ->
+  peek_token T_INDENT (print_body l ++ [0]) = Ok (false, print_body l ++ [0]).
+Proof.
+  intros Hwf. destruct l as [|st l]; [reflexivity|].
+  unfold print_body. cbn [flat_map]. fold (print_body l). rewrite <- app_assoc.
+  rewrite print_stmt_shape. unfold peek_token. rewrite read_token_build.
+  inversion Hwf as [|? ? Hst _]; subst.
+  destruct (wf_stmt_spec st Hst) as [Hout _]. destruct (wf_name_spec _ Hout) as [Hne [Hok _]].
+  rewrite eat_ws_esc by assumption. reflexivity.
+Qed.
+
+Lemma parse_loop_print chk fuel0 : forall stmts fuel acc,
+  Forall (fun st => wf_stmt st = true) stmts -> chk_passes chk acc stmts ->
+  (length stmts < fuel)%nat ->
+  Forall (fun st => (length (dd_imp_outs st) < fuel0)%nat /\ (length (dd_imp_ins st) < fuel0)%nat) stmts ->
+  parse_loop fuel fuel0 chk (print_body stmts ++ [0]) true acc = Ok (rev acc ++ stmts).
+Proof.
+  induction stmts as [|st l IH]; intros fuel acc Hwf Hchk Hl Hf0;
+    (destruct fuel as [|f]; [cbn [length] in Hl; lia|]).
+  - cbn [print_body flat_map app parse_loop]. rewrite read_token_nul. now rewrite app_nil_r.
+  - inversion Hwf as [|? ? Hst Hwfl]; subst. inversion Hf0 as [|? ? [Hfo Hfi] Hf0l]; subst.
+    destruct Hchk as [Hc Hchk].
+    cbn [parse_loop]. unfold print_body. cbn [flat_map]. fold (print_body l). rewrite <- app_assoc.
+    rewrite print_stmt_shape. rewrite read_token_build.
+    destruct (wf_stmt_spec st Hst) as [Hout _]. destruct (wf_name_spec _ Hout) as [Hne [Hok _]].
+    rewrite eat_ws_esc by assumption. cbv beta iota. cbn [negb].
+    rewrite (parse_edge_print fuel0 chk acc st (print_body l ++ [0]) Hst Hc Hfo Hfi (peek_indent_body l Hwfl)).
+    rewrite IH; auto; [|cbn [length] in Hl; lia].
+    cbn [rev]. rewrite <- app_assoc. reflexivity.
+Qed.
+
+Lemma print_list_length l : (length l <= length (print_list l))%nat.
+Proof.
+  rewrite print_list_items. destruct l as [|p l]; [cbn [length]; lia|].
+  cbn [length]. assert (H : forall l, (length l <= length (plist_items l))%nat).
+  { clear. induction l as [|p l IH]; [cbn [length]; lia|].
+    unfold plist_items. cbn [flat_map]. fold (plist_items l). rewrite app_length. cbn [length]. lia. }
+  specialize (H (p :: l)). cbn [length] in H. apply le_S, le_S. exact H.
+Qed.
+
+Lemma print_stmt_length st :
+  (length (dd_imp_outs st) < length (print_stmt st))%nat /\
+  (length (dd_imp_ins st) < length (print_stmt st))%nat.
+Proof.
+  unfold print_stmt. rewrite !app_length. cbn [length]. rewrite !app_length. cbn [length].
+  rewrite !app_length. cbn [length].
+  pose proof (print_list_length (dd_imp_outs st)). pose proof (print_list_length (dd_imp_ins st)). lia.
+Qed.
+
+Lemma print_body_length stmts :
+  (length stmts <= length (print_body stmts))%nat /\
+  Forall (fun st => (length (dd_imp_outs st) <= length (print_body stmts))%nat /\
+                    (length (dd_imp_ins st) <= length (print_body stmts))%nat) stmts.
+Proof.
+  induction stmts as [|st l [IH1 IH2]]; [split; [cbn [length]; lia|constructor]|].
+  unfold print_body. cbn [flat_map]. fold (print_body l). rewrite app_length. cbn [length].
+  destruct (print_stmt_length st) as [H1 H2]. split; [lia|]. constructor; [lia|].
+  eapply Forall_impl; [|exact IH2]. cbv beta. intros a [Ha Hb]. lia.
+Qed.
+
+(** printing a well-formed statement list and parsing it back gives the list *)
+Theorem C11_parse_print_gen_proof : forall chk stmts,
+  Forall (fun st => wf_stmt st = true) stmts -> chk_passes chk [] stmts ->
+  parse_gen chk (print_dyndep stmts) = Ok stmts.
+Proof.
+  intros chk stmts Hwf Hchk. unfold parse_gen, parse_raw, print_dyndep.
+  rewrite <- app_assoc.
+  set (X := print_body stmts ++ [0]).
+  set (fuel0 := S (length (s_version_line ++ X))).
+  cbn [parse_loop].
+  replace (read_token (s_version_line ++ X))
+    with (Ok (T_IDENT, s_version_line ++ X, 61 :: 32 :: 49 :: 10 :: X)) by reflexivity.
+  cbv beta iota.
+  replace (parse_version (s_version_line ++ X)) with (Ok X) by reflexivity.
+  cbv beta iota. subst X.
+  destruct (print_body_length stmts) as [L1 L2].
+  assert (Hlen : (length (print_body stmts) < length (s_version_line ++ print_body stmts ++ [0]))%nat).
+  { rewrite !app_length. cbn [length]. lia. }
+  rewrite (parse_loop_print chk fuel0 stmts _ [] Hwf Hchk); [reflexivity|lia|].
+  eapply Forall_impl; [|exact L2]. cbv beta. intros a [Ha Hb]. subst fuel0. split; lia.
+Qed.
+
+Lemma chk_passes_no_chk seen stmts : chk_passes no_chk seen stmts.
+Proof. revert seen; induction stmts as [|st l IH]; intros seen; cbn [chk_passes]; auto. Qed.
+
+Theorem C11_parse_print_proof : forall stmts,
+  Forall (fun st => wf_stmt st = true) stmts -> parse_dyndep (print_dyndep stmts) = Ok stmts.
+Proof.
+  intros stmts Hwf. unfold parse_dyndep. apply C11_parse_print_gen_proof; [exact Hwf|].
+  apply chk_passes_no_chk.
 Qed.
